@@ -438,6 +438,34 @@ func (h *hostsRun) checkNotifs(exp []model.Notif, what string) {
 			extra = append(extra, k)
 		}
 	}
+	// An owed offline notification of a superseded IPv4 address (host offline and pending in the
+	// model) may be delivered with any notification of the same MAC: the statement fixes that it
+	// is delivered exactly once and before the new address's online notification, not at which
+	// later Notify when the new address itself is no longer online. Accept it and settle the debt.
+	if len(extra) > 0 && len(g) > len(extra) {
+		var rest []string
+		for _, k := range extra {
+			settled := false
+			for _, x := range h.m.ByIP {
+				if !x.Online && x.Pending && x.IP.Is4() && h.m.NotifKey(x) == k {
+					for _, n := range g {
+						if n.MAC == x.MAC && n.IP != x.IP {
+							settled = true
+						}
+					}
+					if settled {
+						x.Pending = false
+						h.probe("owed_offline_settled_late")
+						break
+					}
+				}
+			}
+			if !settled {
+				rest = append(rest, k)
+			}
+		}
+		extra = rest
+	}
 	sort.Strings(missing)
 	sort.Strings(extra)
 	if len(missing) > 0 || len(extra) > 0 {
